@@ -105,11 +105,12 @@ class ParseCtx:
         self.table = None
         self.allowed = None
         for st in q.walk_body(fi.node):
-            if isinstance(st, ast.Assign) and isinstance(st.value, ast.Call) and isinstance(st.value.func, ast.Attribute) and st.value.func.attr == "get" and len(st.value.args) == 1 and q.dotted(st.value.args[0]) == self.op and isinstance(st.value.func.value, ast.Name) and len(st.targets) == 1 and isinstance(st.targets[0], ast.Name):
-                d = single_assignment(fi.node, st.value.func.value.id)
+            if isinstance(st, ast.Assign) and isinstance(st.value, ast.Call) and isinstance(st.value.func, ast.Attribute) and st.value.func.attr == "get" and len(st.value.args) == 1 and q.dotted(st.value.args[0]) == self.op and isinstance(st.value.func.value, (ast.Name, ast.Dict)) and len(st.targets) == 1 and isinstance(st.targets[0], ast.Name):
+                recv_ = st.value.func.value
+                d = (single_assignment(fi.node, recv_.id) or fi.module.assigns.get(recv_.id)) if isinstance(recv_, ast.Name) else recv_
                 dl = dict_literal(d) if d is not None else None
                 if dl is not None:
-                    self.table_name = st.value.func.value.id
+                    self.table_name = recv_.id if isinstance(recv_, ast.Name) else "<table>"
                     self.allowed = st.targets[0].id
                     self.table = dl
         if self.table is None:
@@ -1418,16 +1419,16 @@ def rule_inherit(ck, px):
         inc_f = ck.func(T, "_IncludeBlock.find_named_blocks")
         ps_ = [p_ for p_ in inc_f.params() if p_ != "self"]
         rec_ = [c for c in q.calls(inc_f.node) if isinstance(c.func, ast.Attribute) and c.func.attr == "find_named_blocks"]
-        ck.ob(rid, inc_f, rec_[0] if rec_ else inc_f.node, len(rec_) == 1 and [q.dotted(a) for a in rec_[0].args] == ps_ and (q.dotted(rec_[0].func.value) or "").endswith(".file"), "the included file's named blocks are collected into the same table")
+        ck.ob(rid, inc_f, rec_[0] if rec_ else inc_f.node, len(rec_) == 1 and [q.dotted(a) for a in rec_[0].args] == ps_ and isinstance(rec_[0].func.value, ast.Attribute) and rec_[0].func.value.attr == "file", "the included file's named blocks are collected into the same table")
 
 
 # --------------------------------------------------------------------------------------------
 
 
 def run(ck):
-    from ..x_valuewalk import guard_obligations, plain_assignments
+    from ..x_valuewalk import guard_obligations, canonical
 
-    ck.repo = plain_assignments(ck.repo, ['tornado/template.py'])
+    ck.repo = canonical(ck.repo, ['tornado/template.py'], keep_names=('_DEFAULT_AUTOESCAPE',))
 
     guard_obligations(ck, ['_parse', '_get_ancestors', '_generate_python', '_format_code', '_create_template', '_find_directive'])
     ck.rule("C19.raise-class", "every raise statement in the call closure of _parse / _get_ancestors constructs ParseError; a helper raising another class is only called behind a handler that raises ParseError or a membership guard over the values it accepts")
